@@ -3,7 +3,7 @@ from lib import kv
 PID = "C02"
 LEVEL = "proof"
 CMD = "c02"
-RULE = 'checksummed streams (32/64 bit, 1..5 blocks, short raw final blocks every fourth case); payload bit positions from the independent container parser; single-bit flips (150 per stream incl. 40 in the last bytes of a block; exhaustive in thorough for the first streams, up to 150 000 positions in total), multi-flips, byte substitution, byte swaps; in-pipeline damage through the verif corruption hook after entropy decoding and after the inverse transforms; Read is called 4 more times after an error. Violation: different bytes as success in any call, data or EOF after an error. Non-trivial = distinct stream.'
+RULE = 'checksummed streams (32/64 bit, 1..5 blocks, short raw final blocks every fourth case); payload bit positions from the independent container parser; single-bit flips (150 per stream incl. 40 in the last bytes of a block; exhaustive in thorough for the first streams, up to 60 000 positions in total), multi-flips, byte substitution, byte swaps; in-pipeline damage through the verif corruption hook after entropy decoding and after the inverse transforms; Read is called 4 more times after an error. Violation: different bytes as success in any call, data or EOF after an error. Non-trivial = distinct stream.'
 
 def check(run):
     from props import _stream
